@@ -168,7 +168,7 @@ func Exp10(d Decimal) Decimal {
 			exp--
 		}
 
-		if dSigInt > maxUnbiasedExponent+58 {
+		if dSigInt > exponentBias+maxDigits {
 			if d.Signbit() {
 				return zero(false)
 			}
@@ -221,7 +221,7 @@ func Exp10(d Decimal) Decimal {
 		}
 	}
 
-	if res.exp > maxUnbiasedExponent+58 {
+	if res.exp > exponentBias+maxDigits {
 		if d.Signbit() {
 			return zero(false)
 		}
